@@ -13,7 +13,8 @@ keyword vs positional arguments or on whether a sub-expression has a name.
             helpers it calls) fetches nothing besides the round's tasks.
   C06.TS    the timestamp of every Sample apply() can return derives from this round's fetched samples
             (never the wall clock); nothing is fetched once step evaluation has begun; while
-            _first_run is set, evaluation / return is only reachable through the synchronisation.
+            _first_run is set, evaluation / return is only reachable through the synchronisation and
+            the emitted timestamp is the synchronisation's result (must-use).
   C06.SYNC  first-run synchronisation: inputs grouped by first timestamp, latest = max of the groups,
             returned; per group: `ts < latest` => every stream of the group is fetched (and ts
             tracked) in each pass of a loop that runs exactly while ts < latest; `ts > latest`
@@ -21,6 +22,10 @@ keyword vs positional arguments or on whether a sub-expression has a name.
   C06.FSYNC the fallback synchronisation keeps per-timestamp alignment (shared with C19.SYNC).
   C06.3PH   the three-phase engine receives exactly one sample per phase per round and stamps the
             output with a received timestamp.
+  C06.TOTAL no step's apply() can raise (shared with C13.TOTAL): FormulaEngine._run drops the round on any
+            exception after every input was consumed, i.e. the timestamp would be skipped.
+
+Seeded controls are cut out of the live source at structurally located anchors (build_controls).
 """
 from __future__ import annotations
 
